@@ -39,11 +39,34 @@ def run_case(case):
         in_send, in_recv = anyio.create_memory_object_stream(math.inf)
         out_send, out_recv = anyio.create_memory_object_stream(math.inf)
 
+        ids = {}
+        raw_writes = []
+
+        def drain():
+            while True:
+                try:
+                    m = out_recv.receive_nowait()
+                except Exception:
+                    break
+                d = m.model_dump(exclude_none=True)
+                raw_writes.append(d)
+                n_ = (d.get("params") or {}).get("n")
+                if d.get("method") == "tools/call" and isinstance(n_, int) and n_ not in ids:
+                    ids[n_] = d.get("id")
+
+        def resolve(ev):
+            if isinstance(ev.get("id"), dict) and "$CALLER" in ev["id"]:
+                drain()
+                v = ids.get(ev["id"]["$CALLER"])
+                ev = dict(ev, id=({"s": v} if isinstance(v, str) else {"i": v}))
+            return ev
+
         async def caller(i, spec):
             o = obs[i]
             try:
+                kw = {} if spec.get("id") is None else {"message_id": _idval(spec["id"], {})}
                 res = await send_message(Tap(in_recv, i, log, loop), out_send, "tools/call", {"n": i},
-                                         timeout=spec["D"] * vloop.TICK, message_id=_idval(spec["id"], {}))
+                                         timeout=spec["D"] * vloop.TICK, **kw)
                 o["outcome"] = "returned"
                 o["p"] = res
             except TimeoutError:
@@ -61,31 +84,45 @@ def run_case(case):
             for i, spec in enumerate(case["callers"]):
                 loop.at(spec["start"], (lambda i=i, spec=spec: tg.start_soon(caller, i, spec)))
             for a, ev in case["ev"]:
-                loop.at(a, (lambda ev=ev: in_send.send_nowait(build_event(ev, {}))))
+                loop.at(a, (lambda ev=ev: in_send.send_nowait(build_event(resolve(ev), {}))))
             # keep the task group open until every caller has been started
             await anyio.sleep((max(s["start"] for s in case["callers"]) + 1) * vloop.TICK)
-        writes = []
-        while True:
-            try:
-                m = out_recv.receive_nowait()
-            except Exception:
-                break
-            writes.append(m.model_dump(exclude_none=True))
+        drain()
         for i in range(n):
             obs[i]["got"] = [t for (j, t, _) in log if j == i]
-        return writes
+            obs[i]["wire_id"] = ids.get(i)
+        return raw_writes
 
     writes = vloop.run(main, tie="events")
     return {"callers": obs, "writes": writes, "log": [[j, t] for (j, t, _) in log]}
 
 
-def model_line(case):
+def model_line(case, obs=None):
+    case = resolved_case(case, obs)
     fuel = len(case["ev"]) + sum(c["D"] // P + 3 for c in case["callers"]) + len(case["callers"]) + 8
     return {
         "m": "shared", "P": P, "fuel": fuel,
         "callers": [{"id": c["id"], "D": c["start"] + c["D"], "start": c["start"]} for c in case["callers"]],
         "ev": [[a, _resolved(ev)] for a, ev in case["ev"]],
     }
+
+
+def resolved_case(case, obs):
+    """substitute the ids the implementation put on the wire for symbolic caller references"""
+    if obs is None:
+        return case
+    wire = [c.get("wire_id") for c in obs["callers"]]
+
+    def mk(v):
+        return {"s": v} if isinstance(v, str) else {"i": v if v is not None else -1}
+    callers = [dict(c, id=(c["id"] if c.get("id") is not None else mk(wire[i]))) for i, c in enumerate(case["callers"])]
+    ev = []
+    for a, e in case["ev"]:
+        if isinstance(e.get("id"), dict) and "$CALLER" in e["id"]:
+            k = e["id"]["$CALLER"]
+            e = dict(e, id=callers[k]["id"])
+        ev.append([a, e])
+    return {"callers": callers, "ev": ev}
 
 
 def _resolved(ev):
